@@ -94,7 +94,6 @@ def decNodes (e : SExp) : Option GraphIn := do
 def mkParams (gi : GraphIn) (fails : List Key) : Params Int :=
   { dataVal := fun k => (gi.vals.get? k).getD 0,
     apply := fun k vals => if k ∈ gi.aliases then vals.headD 0 else mix k vals,
-    truthy := fun v => v != 0,
     fails := fun k => k ∈ fails }
 
 def decPrio (e : SExp) : Option (Key → Nat) := do
@@ -110,10 +109,34 @@ def encOutcome : Except Err Outcome → SExp
   | .ok .starved => .list [.sym "starved"]
   | .error e => .list [.sym "raised", encErr e]
 
-/-- `(run nodes results prio nw cs fails choices)` ↦ `(outcome log final result)` -/
+/-- a request: an integer is a key, a list is a (possibly empty, possibly nested) list of requests -/
+partial def decReq (e : SExp) : Option Req :=
+  match e with
+  | .list items => do pure (.list (← items.mapM decReq))
+  | e => do pure (.key (← e.toNat?))
+
+partial def encPacked : Packed Int → SExp
+  | .val v => .int v
+  | .tuple vs => .list (vs.map encPacked)
+
+/-- `(nested_get req (known…))` ↦ `(ok packed)` | `(raised)`: `nested_get(ind, coll)` with `coll[k] = 7k+1` for the known keys -/
+def hNested : Handler := handler fun args =>
+  match args with
+  | [req, known] => do
+    let req ← decReq req
+    let known ← known.toNats?
+    match nestedGet (fun k => if k ∈ known then some ((7 * k + 1 : Nat) : Int) else none) req with
+    | some p => pure (.list [.sym "ok", encPacked p])
+    | none => pure (.list [.sym "raised"])
+  | _ => none
+
+/-- `(run nodes results prio nw cs fails choices [req [cache0]])` ↦ `(outcome log final result [packed])`; `cache0` is a
+caller-supplied `cache=`; with `req` the fifth
+component is what `nested_get(req, cache)` returns at the end (`KeyError` when a requested key is not cached) -/
+
 def hRun : Handler := handler fun args =>
   match args with
-  | [nodes, results, prio, nw, cs, fails, choices] => do
+  | nodes :: results :: prio :: nw :: cs :: fails :: choices :: rest => do
     let gi ← decNodes nodes
     let results ← results.toNats?
     let prio ← decPrio prio
@@ -123,26 +146,44 @@ def hRun : Handler := handler fun args =>
     let choices ← choices.toNats?
     let cfg : Cfg := { g := gi.g, results := results, prio := prio, nw := nw, cs := cs }
     let P := mkParams gi fails
-    let r := getAsync cfg P choices
+    let cache0 : Map Int ← match rest with
+      | [_, c] => decIntMap c
+      | _ => some []
+    let r := getAsyncC cfg P cache0 choices
     let res : SExp := match r.outcome with
       | .ok .done => .list (results.map (fun k => match r.final.cache.get? k with
           | some v => .int v
           | none => .sym "KeyError"))
       | _ => .list []
-    pure (.list [encOutcome r.outcome,
+    let base := [encOutcome r.outcome,
                  .list (r.log.map (fun p => .list [encEv p.1, encState p.2])),
-                 encState r.final, res])
+                 encState r.final, res]
+    match rest with
+    | [] => pure (.list base)
+    | req :: _ =>
+      let req ← decReq req
+      let packed : SExp := match r.outcome with
+        | .ok .done => (match nestedGet r.final.cache.get? req with
+          | some p => encPacked p
+          | none => .sym "KeyError")
+        | _ => .sym "none"
+      pure (.list (base ++ [packed]))
   | _ => none
 
-/-- `(start_state nodes results prio)` ↦ `(ok state)` | `(raised err)` -/
+/-- `(start_state nodes results prio [cache0 keysNone])` ↦ `(ok state)` | `(raised err)`; `keysNone = true` is the
+`keys=None` default of `start_state_from_dask` (every key of the graph that is not in the cache) -/
 def hStart : Handler := handler fun args =>
   match args with
-  | [nodes, results, prio] => do
+  | nodes :: results :: prio :: rest => do
     let gi ← decNodes nodes
     let results ← results.toNats?
     let prio ← decPrio prio
     let cfg : Cfg := { g := gi.g, results := results, prio := prio, nw := 1, cs := 1 }
-    match startState cfg (mkParams gi []) with
+    let (cache0, keysNone) ← match rest with
+      | [] => some (([] : Map Int), false)
+      | [c, kn] => do pure ((← decIntMap c), (← kn.toBool?))
+      | _ => none
+    match startStateC cfg (mkParams gi []) cache0 (if keysNone then none else some results) with
     | .ok s => pure (.list [.sym "ok", encState s])
     | .error e => pure (.list [.sym "raised", encErr e])
   | _ => none
@@ -290,7 +331,7 @@ end SchedDrv
 
 def table : List (String × Handler) :=
   [("run", SchedDrv.hRun), ("start_state", SchedDrv.hStart), ("finish_task", SchedDrv.hFinish),
-   ("release_data", SchedDrv.hRelease), ("denote", SchedDrv.hDenote),
+   ("release_data", SchedDrv.hRelease), ("denote", SchedDrv.hDenote), ("nested_get", SchedDrv.hNested),
    ("cbrun", SchedDrv.hCbRun), ("cbexec", SchedDrv.hCbExec), ("prof", SchedDrv.hProf), ("cache_run", SchedDrv.hCacheRun)]
 
 def main : IO Unit := runDriver table
